@@ -113,7 +113,9 @@ impl BuildOptimiser {
         let inner_steps = u64::max(1, u64::min(self.inner_steps, self.steps));
         let loops = u64::max(1, self.steps / inner_steps);
         let kt_ratio = match (self.kt_ratio, self.kt_finish) {
-            (Some(ratio), _) => 1. - ratio,
+            // Reducing the temperature by more than all of it leaves none: a negative factor
+            // would flip the sign of the temperature (and of a zero temperature) every loop.
+            (Some(ratio), _) => f64::max(0., 1. - ratio),
             // A temperature of zero stays zero, there is no finite factor away from it
             (None, Some(_)) if self.kt_start == 0. => 1.,
             (None, Some(finish)) => f64::powf(finish / self.kt_start, 1. / loops as f64),
